@@ -6,6 +6,7 @@ from mcx.ref import report
 
 PID = 'C14'
 CHUNK = 1
+CASE_TIMEOUT = 3600      # one case = the whole reachability search of one model
 TOLERANCE = 'every result after any history equals the result of a fresh object that only did f<-current; compute; that request (1e-12 relative; texts equal); separate processes byte-identical'
 RULE = ('(a) explicit-state reachability on 10 models (one per load kind: none, lumped, RLC, trap, Laplace, skin effect by '
         'conductivity and by resistivity, insulation, both distributed loads on a 2-wire junction, tapered wire over ground, '
